@@ -263,3 +263,185 @@ def confirm(prop, v):
         elif detail[profile]['bad']:
             status = 'reproduced'
     return status, detail
+
+
+# ---------------------------------------------------------------------------------------------
+# Histories beyond one step: free -> drain the free list -> one more mutator -> traversals.
+# The one-step induction assumes INV in the pre-state; this harness assumes it only at the start and then follows the real
+# code for up to N+2 further calls, so that faults made of two cooperating sites (a free that leaves something behind, an
+# allocation that relies on it) show up as violations of the property itself and not only of the supporting invariant.
+
+def run_history_job(prog, job):
+    t0 = time.time()
+    N = job['N']; free_op = job['free_op']; final_ops = job.get('final_ops', [])
+    its = job.get('iters', ['descendants', 'ancestors', 'following_siblings'])
+    prefixes = tuple(p + '.' for p in job['props'])
+    eng, A, st, acell = base_ctx(prog, N, max_steps=20000 + 8000 * N)
+    res = new_result(job)
+    x = z3.BitVec('x', 64)
+    live = [A.live(i) for i in range(N)]
+    eng.solver.add(z3.UGE(x, 1), z3.ULE(x, N), sel(live, x))
+    if eng.solver.check() != z3.sat:
+        res['vacuous'] = True; return res
+    aref = Ref(acell, ())
+    new_node = find_fn(prog, 'Arena', 'new_node')
+    cov = {'freed_two_or_more': False, 'recycled_former_parent_and_child': False}
+    tag1 = '@%s+drain' % free_op
+
+    def hv(m, failed, phase, extra=None):
+        d = {'kind': 'custom', 'module': 'multistep', 'confirm': 'confirm_history', 'checks': failed, 'op': 'history_' + free_op, 'N': N, 'cfg': 'dev',
+             'pre': A.model_dict(m), 'role': phase, 'args': {'x': m.eval(x, model_completion=True).as_long(), 'free_op': free_op, 'phase': phase}}
+        if extra:
+            for k, v in extra.items(): d['args'][k] = v if isinstance(v, (int, str, list)) else m.eval(v, model_completion=True).as_long()
+        return d
+
+    def named(ob, tag): return [('%s%s' % (n, tag), f) for (n, f) in ob]
+
+    for o1 in call_all(eng, st, find_fn(prog, 'NodeId', free_op), [mk_id(x, sel(A.stamp, x)), aref]):
+        res['paths'] += 1; res['steps'] += o1.state.steps
+        if o1.kind != 'return': continue
+        # ---- drain: allocate while the free list is non-empty
+        work = [(o1.state, 0)]; drained = []
+        while work:
+            s, k = work.pop()
+            V = View(s.store[acell])
+            if k <= N and eng.feasible(s, V.ff_some):
+                s1 = s.copy(); s1.pc.append(V.ff_some); s1.model = None
+                for o2 in call_all(eng, s1, new_node, [aref, Opq(BV8(200 + k))]):
+                    res['paths'] += 1; res['steps'] += o2.state.steps
+                    if o2.kind == 'return': work.append((o2.state, k + 1))
+                    elif 'C05.' in prefixes:
+                        check_obligations(eng, list(o2.state.pc), [('C05.no_panic@%s' % free_op, F_)], prefixes, res, lambda m, f: hv(m, f, 'drain'))
+            nf = z3.Not(V.ff_some)
+            if eng.feasible(s, nf):
+                s2 = s.copy(); s2.pc.append(nf); s2.model = None
+                drained.append((s2, k))
+        for (s2, k) in drained:
+            V2 = View(s2.store[acell])
+            ob = named(inv_links(V2) + inv_acyclic(V2) + inv_freelist(V2), tag1)
+            V1 = View(o1.state.store[acell])
+            for i in range(N):
+                ob.append(('C08.payload_frame[%d]%s' % (i + 1, tag1), z3.Implies(z3.And(A.live(i), V1.live(i)), z3.And(V2.is_data[i], V2.data[i] == A.data[i]))))
+            if k >= 2 and eng.solver.check(*s2.pc) == z3.sat: cov['freed_two_or_more'] = True
+            check_obligations(eng, list(s2.pc), ob, prefixes, res, lambda m, f, k=k: hv(m, f, 'drain', {'allocs': k}))
+            res['nontrivial'] += 1
+            if not final_ops: continue
+            n2 = V2.N
+            t = z3.BitVec('ht', 64); y = z3.BitVec('hy', 64)
+            live2 = [V2.live(i) for i in range(n2)]
+            s3 = s2.copy()
+            cond = z3.And(z3.UGE(t, 1), z3.ULE(t, n2), z3.UGE(y, 1), z3.ULE(y, n2), sel(live2, t), sel(live2, y), t != y)
+            if not eng.feasible(s3, cond): continue
+            s3.pc.append(cond); s3.model = None
+            idt = mk_id(t, sel(V2.stamp, t)); idy = mk_id(y, sel(V2.stamp, y))
+            for fop in final_ops:
+                for o3 in call_all(eng, s3, find_fn(prog, 'NodeId', fop), [idt, idy, aref]):
+                    res['paths'] += 1; res['steps'] += o3.state.steps
+                    tag3 = '@%s+drain+%s' % (free_op, fop)
+                    ext = {'allocs': k, 'final_op': fop, 't': t, 'y': y}
+                    if o3.kind == 'bound':
+                        check_obligations(eng, list(o3.state.pc), [('C02.terminates' + tag3, F_)], prefixes, res, lambda m, f, ext=ext: hv(m, f, 'final', ext)); continue
+                    if o3.kind != 'return':
+                        check_obligations(eng, list(o3.state.pc), [('C05.no_panic' + tag3, F_)], prefixes, res, lambda m, f, ext=ext: hv(m, f, 'final', ext)); continue
+                    V3 = View(o3.state.store[acell])
+                    ob = named(inv_links(V3) + inv_acyclic(V3), tag3)
+                    check_obligations(eng, list(o3.state.pc), ob, prefixes, res, lambda m, f, ext=ext: hv(m, f, 'final', ext))
+                    if not any(p.startswith('C02') for p in prefixes): continue
+                    # traversals from any live node of the final state are finite
+                    z = z3.BitVec('hz', 64)
+                    live3 = [V3.live(i) for i in range(V3.N)]
+                    s4 = o3.state.copy(); cz = z3.And(z3.UGE(z, 1), z3.ULE(z, V3.N), sel(live3, z))
+                    s4.pc.append(cz); s4.model = None
+                    for kind in its:
+                        ctor = find_fn(prog, 'NodeId', kind)
+                        s5 = s4.copy()
+                        eng.push_call(s5, ctor, [mk_id(z, sel(V3.stamp, z)), aref], None, None)
+                        starts = []
+                        for oc in eng.run(s5):
+                            if oc.kind == 'return': starts.append((oc.state, oc.state.new_cell(oc.value), []))
+                        for (s6, _, seq, fin) in iters.drive(eng, starts, iters.method_lookup(prog, iters.ITER_TYPE[kind]), 2 * V3.N + 2):
+                            res['paths'] += 1; res['steps'] += s6.steps
+                            ok = fin is True and len(seq) <= (2 * V3.N if kind in iters.EDGE else V3.N)
+                            ob = [('C02.iterator_finite[%s]%s' % (kind, tag3), z3.BoolVal(ok))]
+                            check_obligations(eng, list(s6.pc), ob, prefixes, res, lambda m, f, ext=dict(ext, iter=kind, z=z): hv(m, f, 'final', ext))
+    res['coverage'] = {k: v for k, v in cov.items() if k == 'freed_two_or_more' and N >= 2 and free_op == 'remove_subtree'}
+    if eng.solver.check() == z3.sat:
+        res['samples'].append({'harness': 'history: %s -> drain -> %s -> traversals' % (free_op, final_ops), 'N': N, 'pre': A.model_dict(eng.solver.model())})
+    res['feas_queries'] = eng.nq; res['solver_time'] += eng.tq
+    res['wall'] = time.time() - t0
+    return res
+
+
+def confirm_history(prop, v):
+    import replay, re
+    pre = v['pre']; a = v['args']
+    detail = {}; status = 'not_reproduced'
+    for profile in ('dev', 'release'):
+        lines = replay.construct_script(pre)
+        n0 = len(lines)
+        lines.append('%s s%d' % (a['free_op'], a['x']))
+        nalloc = a.get('allocs', 0)
+        for k in range(nalloc): lines.append('new z%d %d' % (k, 200 + k))
+        lines.append('dump')
+        nd = len(lines) - 1
+        res = replay.run_script(lines, profile)
+        d = res.get(n0 - 1)
+        try: got = replay.parse_dump(d[1]) if d and d[0] == 'OK' else None
+        except ValueError: got = None
+        ok = bool(got) and replay.same_state(got, pre)
+        bad = []
+        try:
+            mid = replay.parse_dump(res[nd][1])
+        except Exception:
+            mid = None
+        if ok and mid is not None:
+            if a['phase'] == 'drain':
+                V = View.from_dict(mid)
+                for (n, f) in inv_links(V) + inv_acyclic(V) + inv_freelist(V):
+                    if n.startswith(prop + '.') and z3.is_false(z3.simplify(f)): bad.append(n)
+            else:
+                # registers of the final state: find the id of slots t, y, z in the dump
+                def reg_of(slot):
+                    st_ = mid['slots'][slot - 1]['stamp']
+                    return ('NodeId', slot, st_)
+                # ids are addressed by allocating order: recover register names by matching returned ids
+                idmap = {}
+                for k in range(n0):
+                    pass
+                # simpler: re-run with explicit lookups: every register that is live and current for a slot
+                regs = {}
+                full = replay.run_script(lines[:nd], profile)
+                for k, ln in enumerate(lines[:nd]):
+                    w = ln.split()
+                    r = full.get(k)
+                    if r and r[0] == 'OK' and w[0] in ('new', 'cycle', 'copy'):
+                        pid = replay.parse_id(r[1])
+                        if pid: regs[pid] = w[1]
+                def reg(slot):
+                    return regs.get((slot, mid['slots'][slot - 1]['stamp']))
+                rt, ry = reg(a['t']), reg(a['y'])
+                if rt and ry:
+                    l2 = lines[:nd] + ['%s %s %s' % (a['final_op'], rt, ry), 'dump']
+                    if a.get('iter'):
+                        rz = reg(a['z'])
+                        if rz: l2.append('iter %s %s' % (a['iter'], rz))
+                    r2 = replay.run_script(l2, profile, timeout=20)
+                    fo = r2.get(nd, ('MISSING', ''))
+                    if fo[0] in ('TIMEOUT', 'CRASH'): bad.append('final operation did not return: %s' % fo[0])
+                    try:
+                        fin = replay.parse_dump(r2[nd + 1][1])
+                        V = View.from_dict(fin)
+                        for (n, f) in inv_links(V) + inv_acyclic(V):
+                            if n.startswith(prop + '.') and z3.is_false(z3.simplify(f)): bad.append(n)
+                    except Exception:
+                        pass
+                    if a.get('iter'):
+                        ri = r2.get(nd + 2)
+                        if ri is None or ri[0] != 'OK' or 'LIMIT' in ri[1]: bad.append('iterator %s did not finish: %s' % (a['iter'], (ri or ('', ''))[0]))
+                    lines = l2
+        detail[profile] = {'pre_ok': ok, 'bad': bad[:8]}
+        detail.setdefault('script', lines)
+        if not ok:
+            if status == 'not_reproduced': status = 'unreachable'
+        elif bad: status = 'reproduced'
+    return status, detail
